@@ -568,7 +568,24 @@ func runC05(c *Ctx) {
 func ruleFrameLayout(c *Ctx, p *core.Program, rule string, rb, wr *ssa.Function) {
 	c.R.Rule(rule, "E8: the constant offsets at which Writer.Compress stores the method byte, the two sizes and the checksum halves, and the region it hashes, equal those readBlock reads and hashes; the stored compressed size is payload + 9 and the reader subtracts 9; Compress guards the uint32 overflow before storing the size")
 	cfg := p.Cfg.Name
-	wo, ro := offsetsUsed(wr), offsetsUsed(rb)
+	collect := func(root *ssa.Function) []string {
+		set := map[string]bool{}
+		for f := range core.StaticReach(root, 2) {
+			if pkgOf(f) == nil || pkgOf(f).Path() != core.PkgCompress {
+				continue
+			}
+			for _, o := range offsetsUsed(f) {
+				set[o] = true
+			}
+		}
+		var out []string
+		for o := range set {
+			out = append(out, o)
+		}
+		sort.Strings(out)
+		return out
+	}
+	wo, ro := collect(wr), collect(rb)
 	norm := func(xs []string) string {
 		// PutUint32@17: <-> Uint32@17: etc: strip the Put prefix differences
 		var out []string
@@ -587,7 +604,17 @@ func ruleFrameLayout(c *Ctx, p *core.Program, rule string, rb, wr *ssa.Function)
 	}
 	// +9 / -9
 	plus, minus := int64(-1), int64(-1)
-	for _, call := range core.FindCalls(wr, isLEUint("PutUint32")) {
+	var wfns []*ssa.Function
+	for f := range core.StaticReach(wr, 2) {
+		if pkgOf(f) != nil && pkgOf(f).Path() == core.PkgCompress {
+			wfns = append(wfns, f)
+		}
+	}
+	var puts []ssa.CallInstruction
+	for _, f := range wfns {
+		puts = append(puts, core.FindCalls(f, isLEUint("PutUint32"))...)
+	}
+	for _, call := range puts {
 		core.DependsOn(call.Common().Args[2], func(v ssa.Value) bool {
 			if bo, ok := v.(*ssa.BinOp); ok && bo.Op == token.ADD {
 				if k, ok := core.ConstInt(bo.Y); ok && k > 0 {
@@ -629,6 +656,12 @@ func ruleFrameLayout(c *Ctx, p *core.Program, rule string, rb, wr *ssa.Function)
 				if cst, ok := bo.Y.(*ssa.Const); ok && cst.Value != nil && cst.Uint64() == 1<<32-1 {
 					for _, call := range core.FindCalls(wr, isLEUint("PutUint32")) {
 						if b.Dominates(call.Block()) {
+							guard = true
+						}
+					}
+					// the size store may live in a helper: the guard must dominate the call of that helper
+					for _, call := range core.Calls(wr) {
+						if sf := core.StaticFn(call); sf != nil && len(core.FindCalls(sf, isLEUint("PutUint32"))) > 0 && b.Dominates(call.Block()) {
 							guard = true
 						}
 					}
